@@ -242,6 +242,13 @@ def _csv_append(tier, seed):
         triples = rnd.sample(triples, 1500)
     for x in triples:
         yield x
+    # encodings that start with a byte-order mark: appending must not write a second one in the middle of the file
+    t0, t1 = [('f0', 'f1'), ('a', 'b')], [('f0', 'f1'), ('c', '\u00e9')]
+    for enc in ('utf-16', 'utf-8-sig', 'utf-32'):
+        for kind in ('mem', 'path'):
+            for fam in ('csv', 'tsv'):
+                yield (fam, ((t0, None), (t1, None)), enc, (None, None, None), kind)
+                yield (fam, ((t0, None), (t1, None), (t0, None)), enc, (None, None, None), kind)
 
 
 group('csv.append', _csv_append)(check_csv)
